@@ -448,10 +448,24 @@ mod leaf {
     use std::hash::{Hash, Hasher};
     use std::str::FromStr;
 
+    /// A hasher that is sensitive to HOW the octets are fed (`write(b"ab")` differs from two `write_u8`):
+    /// `Hasher` promises nothing else, and word-at-a-time hashers (Fx and the like) behave so. Equal values
+    /// must make the same sequence of calls.
+    struct Granular(u64);
+    impl std::hash::Hasher for Granular {
+        fn finish(&self) -> u64 { self.0 }
+        fn write(&mut self, bytes: &[u8]) {
+            self.0 = self.0.wrapping_mul(0x100000001b3) ^ (bytes.len() as u64 + 0x9e37);
+            for b in bytes { self.0 = self.0.wrapping_mul(0x100000001b3) ^ (*b as u64); }
+        }
+    }
+
     pub fn hash_of<T: Hash>(t: &T) -> u64 {
         let mut h = DefaultHasher::new();
         t.hash(&mut h);
-        h.finish()
+        let mut g = Granular(0xcbf29ce484222325);
+        t.hash(&mut g);
+        h.finish() ^ g.finish().rotate_left(17)
     }
 
     pub fn ord_str(o: std::cmp::Ordering) -> &'static str {
@@ -744,7 +758,7 @@ pub fn handle_leaf(toks: &[&str]) -> Option<String> {
                     let mut granted = src.slice().len();
                     let mut out: Vec<String> = Vec::new();
                     for t in &toks[3..] {
-                        let n: usize = t[1..].parse().ok()?;
+                        let n: usize = if t.len() > 1 { t[1..].parse().ok()? } else { 0 };
                         if t.starts_with('r') {
                             match src.request(n) {
                                 Ok(g) => { granted = g; out.push(format!("g{}:{}", g, to_hex(src.slice()))); }
@@ -755,6 +769,21 @@ pub fn handle_leaf(toks: &[&str]) -> Option<String> {
                             src.advance(k);
                             granted -= k;
                             out.push(format!("a:{}", to_hex(src.slice())));
+                        } else if t.starts_with('u') {
+                            // the provided method `take_opt_u8` as the source implements it
+                            match src.take_opt_u8() {
+                                Ok(Some(b)) => { out.push(format!("u{:02x}:{}", b, to_hex(src.slice()))); }
+                                Ok(None) => { out.push(format!("unone:{}", to_hex(src.slice()))); }
+                                Err(_) => { out.push("refused".into()); break }
+                            }
+                            granted = src.slice().len();
+                        } else if t.starts_with('k') {
+                            // the provided method `skip`
+                            match src.skip(n) {
+                                Ok(r) => { out.push(format!("k{}:{}", r, to_hex(src.slice()))); }
+                                Err(_) => { out.push("refused".into()); break }
+                            }
+                            granted = src.slice().len();
                         } else { return None }
                     }
                     format!("ok {}", out.join(" "))
